@@ -53,6 +53,19 @@ partial def valOf : Sexp → Option XVal
             | false, none => none
         | _ => none
       pure (.otype n.toList es')
+  | .list (.atom "j" :: src :: dflt :: es) => do
+      let _ ← src.str?
+      let d ← dflt.bool?
+      let es' ← es.mapM fun (e : Sexp) => match e with
+        | Sexp.list [k, v] => do
+            let k' ← k.str?
+            match isMemberKey k'.toList, valOf v with
+            | true, some (XVal.hash ms) => pure (OEntry.members k'.toList ms)
+            | true, _ => none
+            | false, some v' => pure (OEntry.plain k'.toList v')
+            | false, none => none
+        | _ => none
+      pure (.otypeX d es')
   | .list (.atom "o" :: name :: es) => do
       let n ← name.str?
       let es' ← es.mapM fun (e : Sexp) => match e with
@@ -110,6 +123,11 @@ def execFmt (io : FloatIO) (ctx ve : Sexp) : String :=
     match valOf ve with
     | none => "bad-op"
     | some v =>
+      -- `xkind` / `xmap`: the same contexts with the property `expanded` — whose effect is in the value (`otypeX`)
+      let ctx := match ctx with
+        | .list (.atom "xkind" :: r) => Sexp.list (.atom "kind" :: r)
+        | .list (.atom "xmap" :: r) => Sexp.list (.atom "map" :: r)
+        | c => c
       match ctx with
       | .list [.atom "kind", d] =>
         (match d.str? with
